@@ -107,8 +107,12 @@ Accept(ns, u) ==                                                                
   [ns EXCEPT !.info = Put(@, u.node, <<u.epoch, u.seq>>),
              !.known = IF ChangedBy(ns, u) THEN ApplyConns(ns, u) ELSE @]
 
+\* an update carrying a negative link cost is not used at all (repair 798525d: it made the shortest-path loop run for ever)
+NegativeCost(u) == \E c \in DOMAIN u.conns : u.conns[c] < 0
+
 HandleRU(ns, u, via) ==
   IF u.node = "" THEN Quiet(ns, "empty_origin")
+  ELSE IF NegativeCost(u) THEN Quiet(ns, "negative_cost")
   ELSE IF u.node = ns.id THEN
          IF u.epoch = ns.epoch THEN Quiet(ns, "self_same_epoch")
          ELSE IF u.susp = ns.epoch THEN Quiet([ns EXCEPT !.alive = FALSE], "self_we_are_duplicate")
